@@ -202,8 +202,9 @@ theorem clearList_inv (l : List (Nat × Nat)) {r : Resp} {sp : Specs} (hi : Resp
 theorem respInv_close {r : Resp} {sp : Specs} (hi : RespInv r sp) :
     RespInv r.close (specClearList r.bound sp) := by
   unfold Resp.close
-  have h' : RespInv { r with bound := [] } sp := ⟨hi.valid, hi.streams⟩
-  exact clearList_inv r.bound h'
+  exact clearList_inv r.bound (r := { r with bound := [], closed := true,
+                                             closeWaiting := r.closeWaiting || r.pending.isSome })
+    ⟨hi.valid, hi.streams⟩
 
 /-! whole histories -/
 
